@@ -109,10 +109,12 @@ class IndexableArray(RaggedBase):
                     self._set_data_range(index, value.ravel())
 
     def _get_row(self, index):
+        self.ravel()  # rows of a pending (lazy) selection are not contiguous in the buffer: materialise first
         view = self._shape.view(index)
         return slice(int(view.starts), int(view.ends)), None
 
     def _get_element(self, row, col):
+        self.ravel()  # a pending column-stepped selection does not store its cells at starts+col: materialise first
         row, col = (np.asanyarray(v) for v in (row, col))
         if self._safe_mode and (
             np.any(row >= self._shape.n_rows) or np.any(col >= self._shape.lengths[row])
